@@ -52,6 +52,8 @@ def gen_job(verif_seed, tier, index):
             op = histgen.make_op(ff, rg, g, out=out)
         if g.random() < 0.3:
             op["cwd"] = g.choice(["wd", "sub"])
+        if g.random() < 0.4:
+            op["relpath"] = g.choice([True, "dotdot"])
         if g.random() < 0.15 and op.get("expect") != "fail":
             op["via_main"] = True
         ops.append(op)
